@@ -309,6 +309,13 @@ def graph_case(rng, nmax, family, force_name=None):
     args = dict(m=None if family == 'nomatrix' else dict(shape=[n, n], coo=[[i, j, w] for i, j, w in wE], dtype=dtype, fmt='csr'),
                 position=positions, names=wrap_names(rng, names), opts=o, alias=rng.random() < 0.15,
                 file=rng.random() < 0.3)
+    if directed_graph and positions is not None and 'edge_labels' in o and rng.random() < 0.6:
+        # the undirected version of the same graph drawn first with the same option objects (the labelled directed edges exist there too)
+        sym = {}
+        for i, j, w in wE:
+            sym[(i, j)] = w
+            sym.setdefault((j, i), w)
+        args['prior'] = dict(m=dict(shape=[n, n], coo=[[i, j, w] for (i, j), w in sorted(sym.items())], dtype=dtype, fmt='csr'))
     if family == 'nomatrix':
         directed = False                      # the empty matrix is symmetric
         if 'directed' in o:
